@@ -44,6 +44,36 @@ def run(ctx):
                        "constructor attribute resolution; constant folding of the CRC table against the generating polynomial and the "
                        "vendor Lua; affine-mod reasoning on the message counter")
     ctx.trusted = ["vendor Lua table (lexical read)", "CPython ast"]
+    # ---- C12.g serialising is repeatable: tobytes builds its frame in fresh buffers.  A buffer kept on the object and extended
+    # in place (directly or through a local alias) makes the second tobytes() of the same command a different, malformed frame.
+    ser = [f for f in prog.all_functions() if f.name == "tobytes" and f.cls is not None and (f.module.name in (CMD, "msmart.frame"))]
+    impure = []
+    for f in ser:
+        if not f.params:
+            continue
+        recv = f.params[0]
+        alias = set()
+        for n in ast.walk(f.node):
+            if isinstance(n, ast.Assign) and len(n.targets) == 1 and isinstance(n.targets[0], ast.Name) and isinstance(n.value, ast.Attribute) \
+                    and isinstance(n.value.value, ast.Name) and n.value.value.id == recv:
+                alias.add(n.targets[0].id)
+
+        def held(x):
+            return (isinstance(x, ast.Name) and x.id in alias) or (isinstance(x, ast.Attribute) and isinstance(x.value, ast.Name) and x.value.id == recv)
+        for n in ast.walk(f.node):
+            if isinstance(n, ast.AugAssign) and held(n.target):
+                impure.append((f, n))
+            elif isinstance(n, ast.Subscript) and isinstance(n.ctx, ast.Store) and held(n.value):
+                impure.append((f, n))
+            elif isinstance(n, ast.Call) and isinstance(n.func, ast.Attribute) and n.func.attr in ("append", "extend", "insert", "clear", "pop", "__iadd__") and held(n.func.value):
+                impure.append((f, n))
+    for f, n in impure:
+        ctx.ob("C12.g", f.qual, False, "", func=f.qual, file=f.module.rel, node=n,
+               fail="tobytes mutates a buffer held by the object (in place / through an alias): serialising the same command again yields another frame")
+    ctx.ob("C12.g", BASE, not impure, f"{len(ser)} tobytes implementations build their frames in fresh buffers (serialising twice gives the same bytes apart from the id)",
+           func=BASE, file=prog.cls(BASE).module.rel, construct="tobytes purity", fail="a tobytes implementation mutates object state")
+    if impure:
+        return
     lua = lua_text(prog.root)
     keyb = lua_keyb(lua)
     ctx.ob("C12.ref", "reference", keyb.get("BYTE_PROTOCOL_HEAD") == 0xAA and keyb.get("BYTE_DEVICE_TYPE") == 0xAC
@@ -132,8 +162,13 @@ def run(ctx):
             init = prog.fold_or_none(prog.cls(BASE).attrs.get("_message_id"), prog.module(CMD), prog.cls(BASE))
             inc = lin(newv, {("const", init): Lin(0, {old: 1})}) if False else None
             # the counter term: either (attr Command._message_id + 1) or folded (const init + 1 -> const)
-            step_ok = newv == ("bin", "+", old, ("const", 1)) or (is_const(newv) and isinstance(init, int) and newv[1] == init + 1) \
-                or (newv[0] == "bin" and newv[1] == "+" and is_const(newv[3], 1))
+            # the counter is the one class attribute Command._message_id, shared by every command class: a counter reached through
+            # `cls` / `self` / type(self) is a separate counter per subclass as soon as it is first incremented
+            shared = cnt_key[0].split(".")[0] not in nm.params and isinstance(prog.resolve_name(nm.module, cnt_key[0].split(".")[0], nm.cls), type(prog.cls(BASE))) \
+                and prog.resolve_name(nm.module, cnt_key[0].split(".")[0], nm.cls).qual == BASE
+            step_ok = shared and (strip(newv) in (("bin", "+", old, ("const", 1)), ("bin", "+", ("const", 1), old),
+                                                  ("bin", "+", ("const", init), ("const", 1)), ("bin", "+", ("const", 1), ("const", init)))
+                                  or (is_const(newv) and isinstance(init, int) and newv[1] == init + 1))
             masked = t[0] == "bin" and t[1] == "&" and is_const(t[3]) and t[3][1] == 0xFF and (t[2] == newv) or \
                 (t[0] == "bin" and t[1] == "%" and is_const(t[3], 256) and t[2] == newv)
             ok = step_ok and masked
